@@ -1,5 +1,6 @@
 """C19 - summaries and plots encode the data faithfully."""
 from .. import AnalysisBroken
+from ..eff import check_pure_params
 from ..nnabs import fold
 from ..rules import Equiv, canon_binders, canon_params, check_equiv, close_loops, compare_function, std_rewrites, where_of
 from ..terms import FALSE, NONE, TRUE, const, get_arg, head, is_const, show, strip, strip_all, subst, walk
@@ -129,8 +130,25 @@ def run(r):
     rep.explanation = "The data arguments that each summary / plotting function passes on were extracted from the current source and compared with the specification."
     rep.trust("logomaker.alignment_to_matrix(seqs): rows = positions, columns = residues, entries = counts", "numpy.unique(a, axis=0, return_counts=True) -> (distinct rows, multiplicities)",
               "seaborn ClusterGrid.plot calls plot_matrix(colorbar_kws, xind, yind) with the dendrogram leaf orders")
+    # purity first: cheap, robust, and a recorded violation takes precedence over a later 'cannot decide'
+    check_pure_params(r, "C19-PURE", [U + "seqs_to_regex", U + "seqs_to_consensus", PL + "rankfrequency", PL + "labels_to_colors_hls", PL + "labels_to_colors_tableau", PL + "density_scatter", PL + "seqlogos", PL + "similarity_clustermap"])
     eq = Equiv(rewrites=std_rewrites(ident=("numpy.asarray",)) + [canon_binders], modelled={"logomaker.alignment_to_matrix", "numpy.sort", "numpy.arange", "numpy.isnan", "numpy.unique", "seaborn.hls_palette",
                                                                                             "matplotlib.pyplot.cycler", "matplotlib.pyplot.gca", "numpy.random.shuffle", "builtins.zip", "builtins.dict"})
+    # structural core, independent of how missing values are dropped: the ranks 0..size-1 and the cumulative norm are taken from the very
+    # array whose reversed values are drawn
+    q = PL + "rankfrequency"
+    s = r.A.summary(q)
+    step = strip(s.ret)
+    okr, found = False, show(step, 100)
+    if head(step) == "call" and head(strip(step[1])) == "attr" and strip(step[1])[2] == "step" and len(step[2]) >= 2:
+        xs, ys = strip_all(step[2][0]), strip_all(step[2][1])
+        rev = [x for x in walk(xs) if head(x) == "sub" and x[2] == ("slice", NONE, NONE, const(-1))]
+        sizes = {x[1] for x in walk(ys) if head(x) == "attr" and x[2] == "size"} | {x[2][0] for x in walk(ys) if head(x) == "call" and x[1] == ("glob", "builtins.len") and len(x[2]) == 1}
+        drawn = {x[1] for x in rev}
+        okr = len(drawn) == 1 and sizes == drawn
+        found = f"drawn: {[show(d, 50) for d in drawn]}; sizes taken from: {[show(z, 50) for z in sizes]}"
+    rep.ob("C19-RANK", q, okr, "ranks and the normalising count refer to exactly the values that are drawn (missing values excluded from both)", where_of(r.P, s.func, s.func.node),
+           expected="y = scaley * arange(drawn.size) / (drawn.size or 1) for the drawn array", found=found, key="rank domain")
     compare_function(r, "C19-RGX", U + "seqs_to_regex", SPEC, "regex: per position the residues with count > 0, bracketed iff several, '?' iff some sequence has a gap there, in row order", eq=eq, key="regex")
     compare_function(r, "C19-CONS", U + "seqs_to_consensus", SPEC, "consensus: a most frequent residue per position, positions with more than n//2 gaps skipped", eq=eq, key="consensus")
     compare_function(r, "C19-RANK", PL + "rankfrequency", SPEC, "rankfrequency draws reverse(sort(non-NaN data [/ sum]))*scalex against scaley*arange(size)/norm", eq=eq, key="rank frequency")
@@ -218,7 +236,7 @@ def run(r):
     hm = s.calls("seaborn.matrix.heatmap")
     okh = len(hm) == 1 and strip_all(strip(hm[0]["term"])[2][0]) == strip_all(d2)
     rep.ob("C19-CMAP", q, okh, "the heat map draws that matrix", where_of(r.P, s.func, hm[0].node if hm else s.func.node), expected="heatmap(self.data2d, ...)", found="same" if okh else "different", key="heatmap data")
-    for rule, fl in (("C19-RGX", 1), ("C19-CONS", 1), ("C19-RANK", 1), ("C19-LUT", 2), ("C19-DENS", 1), ("C19-LOGO", 2), ("C19-CMAP", 5)):
+    for rule, fl in (("C19-PURE", 20), ("C19-RGX", 1), ("C19-CONS", 1), ("C19-RANK", 2), ("C19-LUT", 2), ("C19-DENS", 1), ("C19-LOGO", 2), ("C19-CMAP", 5)):
         rep.floor(rule, fl)
 
 
